@@ -111,4 +111,32 @@ theorem any_depth_lookup_confuses_paths :
             [[("S", ["beta", "beta 2"])]]] := by
   decide +kernel
 
+/-! ### names with dots: a location is the LIST of the ancestors' names, never the dotted string split again
+
+  `WriterLoc.dottedOps`: suite `api` holds the test `v2.status` and the sub-suite `v2` with the test `status`, both running at
+  the same time (one with an `lcc.Thread`).  The theorems above quantify over paths that are lists of ARBITRARY strings
+  (`location_resolves_by_full_path`, `record_lands_at_its_full_path`): `["api", "v2.status"]` and `["api", "v2", "status"]` are
+  two locations, although their dotted renderings coincide. -/
+
+example : dottedReport.map uniqNames = some true := by decide +kernel
+
+/-- two result nodes, two locations; each holds exactly the records of its own test (the `lcc.Thread`'s in its own step) -/
+example :
+    dottedReport.map (fun r => (resultsOf r).map (fun lx => (lx.1, stepsView (some lx.2.steps))))
+    = some [(.test ["api", "v2.status"], [("request", ["flat 1", "flat 2"]), ("request", ["flat thread"])]),
+            (.test ["api", "v2", "status"], [("connect", ["nested 1", "nested 2"])])] := by
+  decide +kernel
+
+/-- **What keeping the list is for** (refutation of the variant that rebuilds a location from the dotted path,
+    `tuple(node.path.split("."))`): the dotted rendering is not injective — both tests get the location
+    `["api", "v2", "status"]`, so every record of `api."v2.status"` would be filed in the result of `api.v2.status` (or the lookup
+    fails when no such sibling exists) — while the lookup by the list of names reads two different nodes. -/
+theorem dotted_rendering_confuses_paths :
+    resplit ["api", "v2.status"] = resplit ["api", "v2", "status"] ∧
+    (["api", "v2.status"] : Path) ≠ ["api", "v2", "status"] ∧
+    dottedReport.map (fun r =>
+      [stepsView (getSteps (.test (resplit ["api", "v2.status"])) r), stepsView (getSteps (.test ["api", "v2.status"]) r)])
+    = some [[("connect", ["nested 1", "nested 2"])], [("request", ["flat 1", "flat 2"]), ("request", ["flat thread"])]] := by
+  refine ⟨by decide +kernel, by decide, by decide +kernel⟩
+
 end LccModel.C06Loc
